@@ -185,6 +185,9 @@ type Exec struct {
 	unknownFeas int
 	uninit    map[string]bool
 	allocElems int64
+	steer      *term.T // preferred region for the model of the next violated assertion (optional)
+	steerVal   *term.T // term whose model value is reported with that assertion
+	steerNote  string
 	onces     map[*Value]bool
 	lastPanic string
 	NowBase   int64
@@ -1558,7 +1561,14 @@ func (ex *Exec) makeSlice(fr *frame, in *ssa.MakeSlice) Value {
 	if ln.Op != term.OConst && ex.sh.AllocBound > 0 {
 		// allocation obligation: a size computed from input stays within the stated bound
 		tb := ex.tb
-		ex.assert(tb.BAnd(tb.Cmp(term.OSle, tb.Const(64, 0), ln), tb.Cmp(term.OSle, ln, tb.Const(64, uint64(ex.sh.AllocBound)))), ex.sh.Property+".alloc-bounded")
+		// a counterexample is preferably one whose size is well above the bound but harmless
+		// to allocate natively (the replay measures the bytes the real code allocates)
+		b := uint64(ex.sh.AllocBound)
+		ex.steer = tb.BAnd(tb.Cmp(term.OSle, tb.Const(64, 16*b), ln), tb.Cmp(term.OSle, ln, tb.Const(64, 64*b)))
+		ex.steerVal = ln
+		ex.steerNote = fmt.Sprintf("elem-bytes=%d", (&types.StdSizes{WordSize: 8, MaxAlign: 8}).Sizeof(in.Type().Underlying().(*types.Slice).Elem()))
+		ex.assert(tb.BAnd(tb.Cmp(term.OSle, tb.Const(64, 0), ln), tb.Cmp(term.OSle, ln, tb.Const(64, b))), ex.sh.Property+".alloc-bounded")
+		ex.steer, ex.steerVal, ex.steerNote = nil, nil, ""
 	}
 	var l int64
 	if ln.Op != term.OConst && !ex.branch(ex.tb.Cmp(term.OUle, ln, ex.tb.Const(64, 64))) {
